@@ -30,10 +30,10 @@ RULE_ALPHABET = (
 )
 
 # larger vocabulary for random longer sequences
-LN = ["LA", "LB", "LC", "LD"]
-MN = ["pk.m1", "pk.m2", "pk.m3", "pk.sub.m4", "q", "pk"]
+LN = ["LA", "LB", "LC", "LD", ""]  # the library accepts the empty string as a layer name
+MN = ["pk.m1", "pk.m2", "pk.m3", "pk.sub.m4", "q", "pk", "pk.M1", ""]  # case twin; empty name
 RN = ["^pk\\.r1.*", "^pk\\.r2.*", ".*r3$"]
-VOCAB = sorted(set(LN + MN + RN), key=lambda t: (-len(t), t))
+VOCAB = sorted(set(x for x in LN + MN + RN if x), key=lambda t: (-len(t), t))
 
 MAXLEN = 6
 
